@@ -112,12 +112,7 @@ fn c08_at_safe() {
     kani::cover!(!inside && !q[0].is_nan() && !q[1].is_nan(), "a rejected finite point exists");
 }
 
-//@h {"id":"C08.K.at.node","props":["C08"],"tier":"quick","kind":"bounded","bound":"3x3 grid with 1, 2 or 3 bands on an exactly representable geometry; node values: pairwise distinct power-of-two probes","timeout":900,"text":"querying each of the nine node positions returns that node's band values (weights 0/1 are exact): bilinear interpolation reproduces node values at nodes; unused bands are 0"}
-#[kani::proof]
-#[kani::unwind(30)]
-fn c08_at_node() {
-    let bands: usize = kani::any();
-    kani::assume(bands >= 1 && bands <= 3);
+fn at_node(bands: usize) {
     let mut nodes = [0f32; 27];
     let mut i = 0;
     while i < 27 {
@@ -146,6 +141,24 @@ fn c08_at_node() {
         }
         r += 1;
     }
+}
+//@h {"id":"C08.K.at.node.1band","props":["C08"],"tier":"quick","kind":"bounded","bound":"3x3 grid, 1 band, exactly representable geometry; node values: pairwise distinct power-of-two probes","timeout":600,"text":"querying each of the nine node positions returns that node's value (weights 0/1 are exact); unused bands are 0"}
+#[kani::proof]
+#[kani::unwind(30)]
+fn c08_at_node_1() {
+    at_node(1);
+}
+//@h {"id":"C08.K.at.node.2bands","props":["C08"],"tier":"quick","kind":"bounded","bound":"3x3 grid, 2 bands","timeout":600,"text":"as above, two bands"}
+#[kani::proof]
+#[kani::unwind(30)]
+fn c08_at_node_2() {
+    at_node(2);
+}
+//@h {"id":"C08.K.at.node.3bands","props":["C08"],"tier":"quick","kind":"bounded","bound":"3x3 grid, 3 bands","timeout":600,"text":"as above, three bands"}
+#[kani::proof]
+#[kani::unwind(30)]
+fn c08_at_node_3() {
+    at_node(3);
 }
 
 //@h {"id":"C08.K.at.cell_order","props":["C08"],"tier":"quick","kind":"bounded","bound":"one interior cell of the 3x3 grid, 2 bands, node values = distinct powers of two, query at cell-relative (1/4, 3/4): all arithmetic exact","timeout":600,"text":"inside a cell the result is (1-u)(1-v) ll + u(1-v) lr + (1-u)v ul + uv ur with u east-, v north-relative: detects swapped weights, swapped rows/columns and band mix-ups, which a grid whose values equal its coordinates cannot"}
